@@ -187,6 +187,16 @@ func (s *Session) Destroy() error {
 		return nil
 	}
 
+	// The session of a session middleware, destroyed through the exported field instead of through
+	// Middleware.Destroy: the save at the end of the request must not bring it back under its old id.
+	if s.ctx != nil {
+		if m, ok := s.ctx.Locals(middlewareContextKey).(*Middleware); ok && m.Session == s {
+			m.mu.Lock()
+			m.destroyed = true
+			m.mu.Unlock()
+		}
+	}
+
 	// Reset local data
 	s.data.Reset()
 
